@@ -76,6 +76,11 @@ def cases(tier, seed):
                 for rnd in (('text', 'json', 'verbose') if tier == 'thorough' else (['json', 'text', 'json', 'verbose'][i % 4],)):
                     i += 1
                     cs.append({'kind': 'certmix', 'certs': list(certs), 'plain': plain, 'render': rnd, 'plain_bits': [2048, 3072, 4096][i % 3], 'cert_bits': [3072, 4096, 2048][i % 3], 'certs_first': i % 2 == 0})
+    # the largest and smallest keys again with debug output on (whatever is traced about a key must cope with its size)
+    for i, b in enumerate([16384, 14336, 1024, 512] if tier == 'quick' else [16384, 15360, 14336, 14272, 12288, 8192, 4096, 3072, 2048, 1024, 512]):
+        cs.append({'kind': 'rsa', 'bits': b, 'names': ARRANGEMENTS[i % len(ARRANGEMENTS)], 'render': 'debug', 'with_ed': i % 2 == 0})
+    for i, (ht, hb, cab) in enumerate([('rsa-cert', 16384, 4096), ('rsa-cert', 4096, 16384), ('ed25519-cert', 256, 16384)]):
+        cs.append({'kind': 'cert', 'host': ht, 'bits': hb, 'ca': {'type': 'rsa', 'bits': cab}, 'render': 'debug', 'var': CERT_VARIANTS[i]})
     # SSH_MSG_DEBUG messages (allowed at any time) in front of every key-exchange reply: the key behind them is measured all the same
     for i, (b, n) in enumerate([(1024, 2), (2048, 3), (3072, 1), (1536, 5)] if tier == 'quick' else [(b, n) for b in (1024, 1536, 2048, 2560, 3072, 4096) for n in (1, 2, 3, 5, 20)]):
         cs.append({'kind': 'rsa', 'bits': b, 'names': ARRANGEMENTS[i % len(ARRANGEMENTS)], 'render': ['text', 'json'][i % 2], 'with_ed': i % 2 == 0, 'chatter': n})
@@ -89,7 +94,7 @@ def _v(key, what, **d):
     return {'key': key, 'what': what, 'detail': d}
 
 
-ARGS = {'text': ['-n'], 'json': ['-j'], 'verbose': ['-n', '-v']}
+ARGS = {'text': ['-n'], 'json': ['-j'], 'verbose': ['-n', '-v'], 'debug': ['-n', '-d']}
 
 
 def observe(script, render, names):
